@@ -10,40 +10,68 @@
 (*                attribute names are first met while visiting the styles  *)
 (*   VttStyle   - the STYLE block concatenates the styles' CSS lines in    *)
 (*                visiting order                                           *)
-(* SORTED = TRUE models the current tree (identifiers sorted before the    *)
-(* visit); FALSE the pinned commit (visit in map order).                   *)
-(* A style is [id, attrs (sequence of attribute names it carries, in the   *)
-(* writer's fixed per-style order), css (sequence of CSS line atoms)].     *)
+(*   SsaTable   - WriteToSSA first files the styles under their *ID* in a   *)
+(*                table of its own, while visiting the map: when two map   *)
+(*                entries carry the same ID the entry visited last stays   *)
+(*                and the name is listed twice                             *)
+(* SORTED = "keys"  models the current tree (the map's keys are sorted     *)
+(*                  before anything is visited),                           *)
+(*          "names" the tree after the first repair (the style names were  *)
+(*                  sorted, but the table was still filled in map order:   *)
+(*                  order-independent only while the IDs are distinct),    *)
+(*          "none"  the pinned commit (everything in map order).           *)
+(* A style map is [key -> [id, attrs (sequence of attribute names the      *)
+(* style carries, in the writer's fixed per-style order), css (sequence of *)
+(* CSS line atoms)]]; keys and ids are numbers, an id may occur under      *)
+(* several keys.                                                           *)
 (***************************************************************************)
 EXTENDS Integers, Sequences, FiniteSets, SequencesExt, TLC
 CONSTANTS SORTED, ATTRS, MAXSTYLES
 
 Perms(S) == {p \in [1..Cardinality(S) -> S] : \A i, j \in DOMAIN p : i # j => p[i] # p[j]}
 
-\* the order in which the writer visits the styles, given the map order pi (a permutation of the ids)
-Visit(styles, pi) == IF SORTED THEN SetToSortSeq(DOMAIN styles, <) ELSE pi
+\* the order in which the writer visits the map's keys, given the map order pi (a permutation of the keys)
+Visit(styles, pi) == IF SORTED = "keys" THEN SetToSortSeq(DOMAIN styles, <) ELSE pi
 
 RECURSIVE AddNew(_, _)
 AddNew(fmt, names) == IF names = <<>> THEN fmt
                       ELSE IF \E i \in DOMAIN fmt : fmt[i] = Head(names) THEN AddNew(fmt, Tail(names))
                       ELSE AddNew(Append(fmt, Head(names)), Tail(names))
-RECURSIVE SsaFormatFrom(_, _, _)
-SsaFormatFrom(styles, order, fmt) == IF order = <<>> THEN fmt ELSE SsaFormatFrom(styles, Tail(order), AddNew(fmt, styles[Head(order)].attrs))
-SsaFormat(styles, pi) == SsaFormatFrom(styles, Visit(styles, pi), <<0>>)   \* 0 = the Name column
 
+\* WriteToSSA: styles[ss.name] = ss ; styleNames = append(styleNames, ss.name) while visiting
+RECURSIVE SsaTableFrom(_, _, _)
+SsaTableFrom(styles, order, acc) ==
+  IF order = <<>> THEN acc
+  ELSE LET st == styles[Head(order)] IN
+       SsaTableFrom(styles, Tail(order), [tbl |-> (st.id :> st) @@ [n \in DOMAIN acc.tbl \ {st.id} |-> acc.tbl[n]], names |-> Append(acc.names, st.id)])
+SsaTable(styles, pi) == SsaTableFrom(styles, Visit(styles, pi), [tbl |-> <<>>, names |-> <<>>])
+\* the names in the order the Format line and the Style lines follow
+SsaNames(styles, pi) == LET t == SsaTable(styles, pi) IN IF SORTED = "none" THEN t.names ELSE SortSeq(t.names, <)
+RECURSIVE SsaFormatFrom(_, _, _)
+SsaFormatFrom(tbl, order, fmt) == IF order = <<>> THEN fmt ELSE SsaFormatFrom(tbl, Tail(order), AddNew(fmt, tbl[Head(order)].attrs))
+SsaFormat(styles, pi) == SsaFormatFrom(SsaTable(styles, pi).tbl, SsaNames(styles, pi), <<0>>)   \* 0 = the Name column
+\* the Style lines: (name, attributes) in writing order
+SsaRows(styles, pi) == LET t == SsaTable(styles, pi) ns == SsaNames(styles, pi) IN [k \in DOMAIN ns |-> <<ns[k], t.tbl[ns[k]].attrs>>]
+
+\* WriteToWebVTT: the STYLE block, visiting the map's keys
 RECURSIVE VttStyleFrom(_, _)
 VttStyleFrom(styles, order) == IF order = <<>> THEN <<>> ELSE styles[Head(order)].css \o VttStyleFrom(styles, Tail(order))
-VttStyle(styles, pi) == VttStyleFrom(styles, Visit(styles, pi))
+VttStyle(styles, pi) == VttStyleFrom(styles, IF SORTED = "none" THEN pi ELSE SetToSortSeq(DOMAIN styles, <))
 
-\* model checking: every style map over <= MAXSTYLES ids with arbitrary attribute subsequences, every pair of orders
+\* model checking: every style map over <= MAXSTYLES keys with arbitrary ids and attribute subsequences, every order
 VARIABLES styles, pi1, pi2
 vars == <<styles, pi1, pi2>>
 AttrSeqs == {SetToSortSeq(S, <) : S \in SUBSET ATTRS}
-CssSeqs == {<<>>, <<1>>, <<2>>}
+CssSeqs == {<<>>, <<1>>}
 Init == \E n \in 0..MAXSTYLES :
-          /\ styles \in [1..n -> [attrs : AttrSeqs, css : CssSeqs]]
-          /\ pi1 \in Perms(1..n) /\ pi2 \in Perms(1..n)
+          /\ styles \in [1..n -> [id : 1..n, attrs : AttrSeqs, css : CssSeqs]]
+          /\ pi1 = [k \in 1..n |-> k] /\ pi2 \in Perms(1..n)        \* every order against one fixed order: all pairs agree
 Next == UNCHANGED vars
 Spec == Init /\ [][Next]_vars
-OrderIndependent == SsaFormat(styles, pi1) = SsaFormat(styles, pi2) /\ VttStyle(styles, pi1) = VttStyle(styles, pi2)
+OrderIndependent == /\ SsaFormat(styles, pi1) = SsaFormat(styles, pi2)
+                    /\ SsaRows(styles, pi1) = SsaRows(styles, pi2)
+                    /\ VttStyle(styles, pi1) = VttStyle(styles, pi2)
+\* the first repair's guarantee: with distinct IDs sorting the names is enough
+DistinctIds == \A j, k \in DOMAIN styles : j # k => styles[j].id # styles[k].id
+OrderIndependentWhenDistinct == DistinctIds => OrderIndependent
 =============================================================================
